@@ -168,6 +168,13 @@ m('M96-steps-bound-from-caps', ['C19'], (DS, "\t\tnumSteps := len(openingProofRa
 m('M97-u64-through-element', ['C19'], (GU, "\t\toutput = append(output, NewVariable(input[i]))", "\t\toutput = append(output, NewVariable(input[i]%MODULUS.Uint64()))"))
 m('M98-match-on-trimmed-id', ['C18'], ('plonk/gates/gates.go', "\t\tmatches := regex.FindStringSubmatch(gateId)", "\t\tmatches := regex.FindStringSubmatch(strings.TrimSpace(gateId))"), ('plonk/gates/gates.go', 'import (\n', 'import (\n\t"strings"\n'))
 
+m('M99-defer-for-every-kind', ['C06', 'C02'], (B, "\t\tif c.rangeCheckerType == COMMIT_RANGE_CHECKER {\n\t\t\tapi.Compiler().Defer(c.checkCollected)\n\t\t}\n", "\t\tapi.Compiler().Defer(c.checkCollected)\n"))
+
+# ---- W2 magnitude analysis (honest fit)
+m('M100-reducewithpowers-no-step-reduce', ['C02', 'C05', 'C08'], (Q, "\t\tsum = p.ReduceExtension(sum)\n\t}\n\treturn sum", "\t}\n\treturn p.ReduceExtension(sum)"))
+m('M101-sbox-single-reduce', ['C02', 'C05'], (PG, "\tx3 = c.Gl.ReduceWithMaxBits(x3, 128)\n", ""))
+m('M104-nbbits-128-fit', ['C02'], (B, "var RANGE_CHECK_NB_BITS int = 144", "var RANGE_CHECK_NB_BITS int = 128"))
+
 # ---- behaviour-preserving refactors: must stay silent on every property
 ALL = ['C01', 'C02', 'C03', 'C04', 'C05', 'C06', 'C07', 'C08', 'C09', 'C10', 'C11', 'C12', 'C13', 'C14', 'C15', 'C16', 'C17', 'C18', 'C19', 'C20']
 m('R02-inline-assertLeadingZeros', [], (F, "\tf.assertLeadingZeros(friChallenges.FriPowResponse, f.friParams.Config)\n", "\tf.gl.RangeCheckWithMaxBits(friChallenges.FriPowResponse, 64-f.friParams.Config.ProofOfWorkBits)\n"))
@@ -223,6 +230,10 @@ m('R52-dispatch-if-form', [], (B, "\tswitch p.rangeCheckerType {\n\tcase NATIVE_
 m('R53-chip-value-getter', [], (B, "func (p *Chip) RangeCheckWithMaxBits(x Variable, maxNbBits uint64) {", "func (p Chip) API() frontend.API {\n\treturn p.api\n}\n\nfunc (p *Chip) RangeCheckWithMaxBits(x Variable, maxNbBits uint64) {"))
 m('R54-decoder-len-hoisted', [], ('variables/deserialize.go', "\tfor i := 0; i < len(openingProofRaw.CommitPhaseMerkleCaps); i++ {", "\tnCaps := len(openingProofRaw.CommitPhaseMerkleCaps)\n\tfor i := 0; i < nCaps; i++ {"))
 m('R55-squeeze-range-form', [], (PG, "\t\tfor i := 0; i < SPONGE_RATE; i++ {\n\t\t\toutputs = append(outputs, state[i])", "\t\tfor i := 0; i < 8; i++ {\n\t\t\toutputs = append(outputs, state[i])"))
+m('R56-drain-empty-early-return', [], (B, "func (p *Chip) checkCollected(api frontend.API) error {\n", "func (p *Chip) checkCollected(api frontend.API) error {\n\tif len(p.rangeCheckCollected) == 0 {\n\t\treturn nil\n\t}\n"))
+m('R59-muladdext-times-one', [], (Q, "\tproduct := p.MulExtensionNoReduce(a, b)\n\tsum := p.AddExtensionNoReduce(product, c)\n\treturn p.ReduceExtension(sum)", "\tproduct := p.MulExtensionNoReduce(p.MulExtensionNoReduce(a, OneExtension()), b)\n\tsum := p.AddExtensionNoReduce(product, c)\n\treturn p.ReduceExtension(sum)"))
+m('R57-muladdext-inline', [], (Q, "\tproduct := p.MulExtensionNoReduce(a, b)\n\tsum := p.AddExtensionNoReduce(product, c)\n\treturn p.ReduceExtension(sum)", "\treturn p.ReduceExtension(p.MulAddExtensionNoReduce(a, b, c))"))
+m('R58-reducewithpowers-forward-index', [], (Q, "\tfor i := len(terms) - 1; i >= 0; i-- {\n\t\tsum = p.AddExtensionNoReduce(\n\t\t\tp.MulExtensionNoReduce(\n\t\t\t\tsum,\n\t\t\t\tscalar,\n\t\t\t),\n\t\t\tterms[i],\n\t\t)", "\tfor k := 0; k < len(terms); k++ {\n\t\ti := len(terms) - 1 - k\n\t\tsum = p.AddExtensionNoReduce(\n\t\t\tp.MulExtensionNoReduce(\n\t\t\t\tsum,\n\t\t\t\tscalar,\n\t\t\t),\n\t\t\tterms[i],\n\t\t)"))
 
 if __name__ == '__main__':
     import json, sys
